@@ -155,7 +155,7 @@ def line_case(draw, tier='quick', max_lines=8):
         'delete_plain', 'insert_plain', 'mark_both', 'substring_line',
         'substring_line', 'substring_actual_only', 'dup_line', 'rem_line',
         'long_line', 'blank_tail', 'insert_edge_marked',
-        'edge_marked_pair', 'only_rem']), min_size=0, max_size=3))
+        'edge_marked_pair', 'only_rem', 'bom']), min_size=0, max_size=3))
     if not edits and draw(st.integers(0, 2)) != 0:
         edits = [draw(st.sampled_from(['refill', 'pad', 'swap', 'fchar',
                                        'insert_marked', 'substring_line']))]
@@ -293,6 +293,14 @@ def line_case(draw, tier='quick', max_lines=8):
                 ref.insert(draw(st.integers(0, len(ref))), line + ' 2')
             if enable():
                 opts['preprocess'] = 'drop_rem'
+        elif e == 'bom' and act and ref:
+            # U+FEFF as the first character of a text: a character like any
+            # other (on one side it is a difference, on both it is not)
+            side = draw(st.sampled_from(['act', 'ref', 'both']))
+            if side in ('act', 'both'):
+                act[0] = '\ufeff' + act[0]
+            if side in ('ref', 'both'):
+                ref[0] = '\ufeff' + ref[0]
         elif e == 'only_rem':
             # one side, or both, consists of nothing but lines the
             # preprocessor drops: its preprocessed form is empty
